@@ -43,6 +43,10 @@ def add_axis(tree: A, index: int, transform_metadata: tp.Mapping) -> A:
 
   def insert_field(fields, index, value):
     iterable = list(fields)
+    if index < 0:
+      # negative indices count from the end of the *new* tuple (the array has
+      # already gained the axis); list.insert counts from the end of the old one
+      index += len(iterable) + 1
     while len(iterable) < index:
       iterable.append(None)
     iterable.insert(index, value)
